@@ -6,6 +6,7 @@ import (
 	"io"
 	"log"
 	"os"
+	"os/signal"
 	"path/filepath"
 	"strconv"
 	"strings"
@@ -23,6 +24,7 @@ const (
 	envDir    = "DL_DIR"    // directory of this caller process and its daemons
 	envSeq    = "DL_SEQ"    // scenario id, copied into every file
 	envDelays = "DL_DELAYS" // "0,5,200": handler dl-<i> sleeps delays[i] ms before Done()
+	envSigIgn = "DL_SIGIGN" // "1": the caller ignores SIGINT before its first Launch
 	envForced = "DL_FORCED" // "1": the daemon completing the set of N Done() calls creates done.flag
 	envSup    = "DL_SUP"    // pid of the supervisor; daemons stop idling when it is gone
 	envLinger = "DL_LINGER" // ms the LAUNCHER process lingers between daemon.Run() returning true and os.Exit(0) ("slow clean-up")
@@ -543,6 +545,9 @@ func callerMain() {
 	// SIG_IGN falls back to "ignored" (not "default") after signal.Stop, which changes what a
 	// late or repeated SIGINT does to it.
 	wasIgn, sigErr := resetIgnoredSignal(syscall.SIGINT)
+	if os.Getenv(envSigIgn) == "1" {
+		signal.Ignore(syscall.SIGINT) // this scenario is about a caller that does ignore it
+	}
 	sigNote := ""
 	if sigErr != nil {
 		sigNote = "rt_sigaction: " + sigErr.Error()
